@@ -1230,9 +1230,16 @@ func conv(t_dst, t_src types.Type, x value) value {
 		switch ut_src.Elem().Underlying().(*types.Basic).Kind() {
 		case types.Byte:
 			x := x.([]value)
+			if h, ok := handleOf(x); ok {
+				return handleToken(h) // opaque bytes <-> token string
+			}
 			b := make([]byte, 0, len(x))
 			for i := range x {
-				b = append(b, x[i].(byte))
+				bb, ok := x[i].(byte)
+				if !ok {
+					unsupp("string() of symbolic bytes")
+				}
+				b = append(b, bb)
 			}
 			return string(b)
 
@@ -1267,6 +1274,9 @@ func conv(t_dst, t_src types.Type, x value) value {
 					}
 					return res
 				case types.Byte:
+					if h, ok := tokenHandle(s); ok {
+						return handleBytes(h)
+					}
 					for _, b := range []byte(s) {
 						res = append(res, b)
 					}
